@@ -11,6 +11,7 @@ import MinizProof.Model.InflStream
 import MinizProof.Model.Core
 import MinizProof.Model.DeflOut
 import MinizProof.Model.VecLoops
+import MinizProof.Model.CStream
 namespace Driver
 open Spec
 
@@ -443,6 +444,24 @@ def opVec (a : Acc) (ln : Nat) (l : Line) (infl : Bool) : Acc := Id.run do
     | .stuck calls => a := a.diff ln l "vec_calls" s!"model wants another inner call after {calls.length - 1}; implementation made {args.length}"
   return a
 
+/-- `CCALL`: one real `mz_deflate` / `mz_inflate` call — the `mz_stream` fields before and after,
+    the return code, and the result of the same call on the Rust API — replayed through
+    `Model.CStream.streamCall`: return code and all six fields must agree. -/
+def opCcall (a : Acc) (ln : Nat) (l : Line) : Acc := Id.run do
+  let s : Model.CStream.CStream :=
+    { nextIn := l.nat "ni", availIn := l.nat "ai", totalIn := l.nat "ti", nextOut := l.nat "no", availOut := l.nat "ao",
+      totalOut := l.nat "to", inNull := l.nat "inull" == 1, outNull := l.nat "onull" == 1, kindOk := l.nat "kind" == 1,
+      hasState := l.nat "state" == 1 }
+  let inner : Model.CStream.Inner := { status := l.int "rst", consumed := l.nat "rcons", written := l.nat "rwr" }
+  let (s', rc) := Model.CStream.streamCall s (l.int "flush") inner
+  let mut a := a.bump "ccall"
+  a := a.bump (if rc < 0 && rc != -5 then "ccall_error_paths" else "ccall_ok_paths")
+  if rc != l.int "rc" then a := a.diff ln l "c_status" s!"model returns {rc}, implementation {l.int "rc"}"
+  let got := [l.nat "ni2", l.nat "ai2", l.nat "ti2", l.nat "no2", l.nat "ao2", l.nat "to2"]
+  let want := [s'.nextIn, s'.availIn, s'.totalIn, s'.nextOut, s'.availOut, s'.totalOut]
+  if got != want then a := a.diff ln l "c_accounting" s!"model fields after the call {want}, implementation {got}"
+  return a
+
 /-- `INEW`: a fresh decoder object and its output buffer (filled with the harness's known pattern). -/
 def opInew (a : Acc) (l : Line) : Acc :=
   let id := l.nat "id"
@@ -507,6 +526,7 @@ def dispatch (a : Acc) (ln : Nat) (l : Line) : Acc :=
   | "STG" => opStg a ln l
   | "VECI" => opVec a ln l true
   | "VECD" => opVec a ln l false
+  | "CCALL" => opCcall a ln l
   | "INEW" => opInew a l
   | "ICALL" => opIcall a ln l
   | "" => a
